@@ -2,7 +2,7 @@
 # Re-runs the quick check of the seed's own property (plus extra checks given
 # as PROP-W[-r2]=C17,...) against every kept seed, LANES at a time.
 # usage: tools_seed_rerun.sh [lanes] [pattern]
-lanes=${1:-3}; pat=${2:-.}
+lanes=${1:-4}; pat=${2:-.}
 declare -A EXTRA=( [C03-B-r2]="C17" )
 ls /verif/seeded | grep -E '^C[0-9]+-[AB](-r[23])?$' | grep -E "$pat" | while read d; do
   p=${d%%-*}; rest=${d#*-}; w=${rest%%-*}; sfx=""
